@@ -64,6 +64,7 @@ type OpenOpts struct {
 	NoGrowSync      bool   `json:"no_grow_sync,omitempty"`
 	InitialMmapSize int    `json:"initial_mmap_size,omitempty"`
 	GivePageSize    bool   `json:"give_page_size,omitempty"`
+	WrongPageSize   bool   `json:"wrong_page_size,omitempty"` // Options.PageSize set to a size the existing file does not use (the file's own must win)
 	Mlock           bool   `json:"mlock,omitempty"`
 	PreLoadFreelist bool   `json:"preload_freelist,omitempty"`
 	ReadOnly        bool   `json:"read_only,omitempty"`
